@@ -100,7 +100,7 @@ def judge_robust(case, res, steps=None):
 
 # ------------------------------------------------------------------ arbitrary (possibly invalid) layouts x check/print/convert
 def steps_anylayout(case, pick):
-    L = replay.instantiate(case["from"], pick)
+    L = replay.instantiate(case["from"], pick, True)
     return [{"op": "build", "dst": "a", "layout": L, "want": ["valid", "tostring", "form", "type", "depth", "json", "json_even_if_invalid"]}]
 
 
